@@ -151,6 +151,10 @@ Definition proc_functional (sp:span) (f:Z + value) (general:bool) : Comp evalr :
   end.
 Definition functional (sp:span) (v:value) (general:bool) : Comp evalr :=
   f <- strict_functional sp v ;; proc_functional sp f general.
+(* what ㄱㄹ keeps of its continuation / handler: strict_functional only (any callable value, or a literal taken as a built-in name whether or not it
+   exists); proc_functional - the check that it is a function, the look-up of the name - happens when the action RUNS (late_apply in Interp.v) *)
+Definition late_functional (sp:span) (v:value) : Comp evalr :=
+  f <- strict_functional sp v ;; match f with inl n => Ret (EBuiltin n) | inr x => proc_functional sp (inr x) true end.
 
 (* ---------- arithmetics.py ---------- *)
 Fixpoint all_bools (sp:span) (argv:list value) (stop_on:bool) : Comp value :=   (* _all: stop_on=false ; _any: stop_on=true *)
@@ -331,10 +335,10 @@ Definition bi_bind (sp:span) (argv:list value) : Comp value :=
   match argv with
   | m :: f :: rest =>
       io <- force m ;; check_type sp [io] is_io ;;;
-      resolve <- functional sp f false ;;      (* strict_functional; proc_functional happens when the action runs *)
+      resolve <- late_functional sp f ;;      (* strict_functional; proc_functional happens when the action runs *)
       match rest with
       | [] => Ret (VIO (IOBind sp io resolve None argv))
-      | h :: _ => reject <- functional sp h false ;; Ret (VIO (IOBind sp io resolve (Some reject) argv)) end
+      | h :: _ => reject <- late_functional sp h ;; Ret (VIO (IOBind sp io resolve (Some reject) argv)) end
   | _ => raise c_value sp end.
 
 
